@@ -40,7 +40,7 @@ def gen_scenario(R, maxplugs):
             elif r < 0.8: cmds.append(('off', [R.randrange(n)]))
             else: cmds.append(('stat', list(range(n))))
         cmds.append(('stat', list(range(n))))
-        return dict(plugs=plugs, nh=nh, failing=failing, cmds=cmds)
+        return dict(plugs=plugs, nh=nh, failing=failing, cmds=cmds, names=names_for(R, n, nh))
     for _ in range(R.randint(3, 9)):
         r = R.random()
         if r < 0.06:
@@ -51,19 +51,55 @@ def gen_scenario(R, maxplugs):
         ts = [R.randrange(n) for _ in range(k)] if R.random() < 0.15 else R.sample(range(n), k)
         if R.random() < 0.12: ts.insert(R.randrange(len(ts) + 1), 99)
         cmds.append((c, ts))
-    return dict(plugs=plugs, nh=nh, failing=failing, cmds=cmds)
+    return dict(plugs=plugs, nh=nh, failing=failing, cmds=cmds, names=names_for(R, n, nh))
 
 
 def pn(p): return 'Zz' if p == 99 else 'P%d' % p
 
 
+def bernstein(name):
+    h = 0
+    for ch in name.encode(): h = ((33 * h) ^ ch) & 0xFFFFFFFFFFFFFFFF
+    return h
+
+
+POOL = ['%s%d' % (p, i) for p in ('chassis', 'Blade', 'Perif', 'Node', 'cmm', 'psu-', 'Rack', 'enc', 'slot_', 'gpu', 'sw', 'n', 'x-ib', 'Tray') for i in range(0, 30)] + ['cmm', 'enc', 'rack', 'A', 'b']
+
+
+def names_for(R, n, nh):
+    """how the plugs are called on the command line of the real helper (the model works on indices and prints P<i>; answers are
+    mapped back): the default P<i>; the host names themselves (redfishpower starts with one plug per host, named like it, and
+    `setplugs` replaces them); names as sites use them; and names chosen to fall into one bucket of the helper's hash tables
+    (17 and more slots, Bernstein hash) so that chains grow and tables are rebuilt while plugs are being defined"""
+    r = R.random()
+    if r < 0.45: return ['P%d' % i for i in range(n)]
+    if r < 0.6: return ['h%d' % i for i in range(n)]
+    if r < 0.8: return R.sample(POOL, n)
+    m = R.choice([17, 17, 3, 59])
+    groups = collections.defaultdict(list)
+    for x in POOL: groups[bernstein(x) % m].append(x)
+    big = [g for g in groups.values() if len(g) >= n]
+    return R.sample(R.choice(big), n) if big else R.sample(POOL, n)
+
+
+def back(names, text):
+    """answers of the helper with the plug names of the scenario mapped back to P<i>"""
+    import re
+    if not names or names[0] == 'P0' and all(x == 'P%d' % i for i, x in enumerate(names)): return text
+    idx = {x: i for i, x in enumerate(names)}
+    rx = re.compile(r'(?<![\w-])(?<!host=)(' + '|'.join(re.escape(x) for x in sorted(names, key=len, reverse=True)) + r')(?![\w-])')
+    return rx.sub(lambda m: 'P%d' % idx[m.group(1)], text)
+
+
 def run_c(binary, sc):
     lines = ['setstatpath s', 'setonpath o {x}', 'setoffpath f {y}']
+    nm = sc.get('names') or ['P%d' % i for i in range(len(sc['plugs']))]
+    def cn(t): return 'Zz' if t == 99 else nm[t]
     for (i, h, par) in sc['plugs']:
-        lines.append('setplugs P%d %d%s' % (i, h, '' if par < 0 else ' P%d' % par))
+        lines.append('setplugs %s %d%s' % (nm[i], h, '' if par < 0 else ' ' + nm[par]))
     ncfg = len(lines)
     for c, ts in sc['cmds']:
-        lines.append(ts if c == 'raw' else '%s %s' % (c, ','.join(pn(t) for t in ts)))
+        lines.append(ts if c == 'raw' else '%s %s' % (c, ','.join(cn(t) for t in ts)))
     args = [binary, '-h', 'h[0-%d]' % max(sc['nh'] - 1, 0), '--test-mode']
     if sc['failing']: args.append('--test-fail-power-cmd-hosts=' + ','.join('h%d' % h for h in sc['failing']))
     try:
@@ -73,7 +109,7 @@ def run_c(binary, sc):
         out, err, rc, hung = (e.stdout or b'').decode() if isinstance(e.stdout, bytes) else (e.stdout or ''), '', -9, True
     # split at prompts: chunk k is the output of input line k-1 (chunk 0 precedes the first prompt)
     chunks = out.split(PROMPT)
-    answers = chunks[1 + ncfg:] if len(chunks) > ncfg else []
+    answers = [back(nm, a) for a in chunks[1 + ncfg:]] if len(chunks) > ncfg else []
     return answers, err, rc, hung, len(chunks) - 1, ncfg + len(sc['cmds'])
 
 
@@ -115,6 +151,7 @@ def one(args):
                 if got is None: V.append(dict(sig='C19 no answer to a malformed line', line=ts, replay=rp))
                 continue
             st['cmd ' + c] += 1
+            if j == 0: st['plug names: ' + ('P<i>' if sc['names'][0] == 'P0' else 'host names' if sc['names'][0] == 'h0' else 'site-style or colliding in one hash bucket')] += 1
             distinct.add((c, tuple(ts), tuple(sc['plugs']), tuple(sc['failing'])))
             m, s = lean[li] if li < len(lean) else ('M ?', 'S ?'); li += 1
             mdone = m.split(' ')[1] if len(m.split(' ')) > 1 else '?'
